@@ -373,6 +373,13 @@ where
         Ok(())
     }
 
+    /// Verification hook (only with `--cfg mipidsi_verif`): read-only copy of the private driver state.
+    #[cfg(mipidsi_verif)]
+    #[doc(hidden)]
+    pub fn verif_state(&self) -> (options::ModelOptions, dcs::SetAddressMode, bool) {
+        (self.options.clone(), self.madctl, self.sleeping)
+    }
+
     /// Returns the DCS interface for sending raw commands.
     ///
     /// # Safety
